@@ -647,9 +647,9 @@ fn gen_vstate(p: &mut Prng, n: usize, o: &VOpts, long_vec: bool) -> State {
             for j in 0..k {
                 v.push(Trans(off + j, 1.0 / 1024.0));
             }
-        } else if n >= 8 && p.chance(1, 12) {
+        } else if n >= 5 && p.chance(1, 8) {
             // a medium list: 5 to 8 distinct targets (past any small linear-scan threshold)
-            let k = p.range(5, 8) as usize;
+            let k = p.range(5, 8.min(n as u64)) as usize;
             let off = p.below((n - k) as u64 + 1) as usize;
             for j in 0..k {
                 v.push(Trans(off + j, 0.125));
